@@ -395,7 +395,7 @@ class ScopeGen(ScopeFn):
         res = set()
         for node in self.assignments:
             if node.name not in self.nonlocal_vars:
-                self.parent.access(node)
+                self.parent.assign(node)
                 res.add(node.name)
         return sorted(res)
 
